@@ -52,8 +52,10 @@ pub fn params_strategy<B: Backend>(tier: Tier) -> BoxedStrategy<PwParams> {
         .boxed()
     } else {
         let para = if B::PBKW_PARALLEL { (1u32..=4).boxed() } else { Just(1u32).boxed() };
-        (8u64..=tier.pick(512, 4096), 1u32..=3, para)
-            .prop_map(|(kib, time, para)| PwParams::Argon2id { mem_bytes: kib.max(8 * para as u64) * 1024, time, para })
+        // one case in ten: a byte count that is not a whole number of KiB (a back end may decline it;
+        // what it wraps it must unwrap)
+        (8u64..=tier.pick(512, 4096), 1u32..=3, para, prop_oneof![9 => Just(0u64), 1 => 1u64..1024])
+            .prop_map(|(kib, time, para, odd)| PwParams::Argon2id { mem_bytes: kib.max(8 * para as u64) * 1024 + odd, time, para })
             .boxed()
     }
 }
@@ -139,7 +141,6 @@ fn pbkw<B: Backend, K: SealingKey>(acc: &mut Acc, c: &Case, p: &PwParams, key: K
 where
     V<B>: HasKey<K>,
 {
-    let _ = acc;
     let name = B::NAME;
     let k = kind(c.secret);
     let orig = key_bytes(&key);
@@ -150,7 +151,18 @@ where
     } else {
         key.password_wrap_with_params(&pw, &pw_params::<B>(p))
     }
-    .map_err(|e| Fail::new(format!("C05/{name}/pbkw/{k}/wrap/err-{}", err_kind(&e)), format!("password_wrap failed with {p:?}: {e}")))?;
+    ;
+    let wrapped = match wrapped {
+        Ok(w) => w,
+        Err(_) if matches!(p, PwParams::Argon2id { mem_bytes, .. } if mem_bytes % 1024 != 0) => {
+            acc.class("pbkw:memory-not-whole-KiB:declined");
+            return Ok(());
+        }
+        Err(e) => return Err(Fail::new(format!("C05/{name}/pbkw/{k}/wrap/err-{}", err_kind(&e)), format!("password_wrap failed with {p:?}: {e}"))),
+    };
+    if matches!(p, PwParams::Argon2id { mem_bytes, .. } if mem_bytes % 1024 != 0) {
+        acc.class("pbkw:memory-not-whole-KiB:wrapped");
+    }
     let text = wrapped.to_string();
     let h = format!("{}.{k}-pw.", B::VER.k());
     let ver = B::VER;
@@ -456,7 +468,7 @@ pub fn def() -> PropertyDef {
     PropertyDef {
         id: "C05",
         level: "exploration",
-        rule: "proptest cases (back end x {PIE, PBKW, PKE} x wrapped key {local, secret; parsed, random()} x wrapping key / password (any bytes incl. empty; one case in ten wraps a key under ITSELF, one in ten uses the key's own bytes as password) / PBKW parameters (cheapest, random within budget, default, and a few high-cost ones: > 10^6 PBKDF2 iterations / 64-192 MiB Argon2id, and one Argon2id case at 4 GiB per v2/v4 back end) x recipient pair (v1: also every pool key of another modulus size that the back end accepts as a key-sealing pair); v1 RSA-KEM draw scripted so that the ciphertext has 1-2 leading zero bytes; v1/v3 derived AES-CTR counter block forced (hook) to values whose counter carries past 64 / 128 bits, for wrap and unwrap alike); oracle = wrap ok, own text parses and re-serialises, unwrap returns the same key bytes, decoded length equals the format's fixed length; non-trivial iff non-default parameters, secret key payload, constructed draw, or parsed key",
+        rule: "proptest cases (back end x {PIE, PBKW, PKE} x wrapped key {local, secret; parsed, random()} x wrapping key / password (any bytes incl. empty; one case in ten wraps a key under ITSELF, one in ten uses the key's own bytes as password) / PBKW parameters (cheapest, random within budget, default, and a few high-cost ones: > 10^6 PBKDF2 iterations / 64-192 MiB Argon2id, one Argon2id case at 4 GiB per v2/v4 back end, and byte counts that are not whole KiB - which a back end may decline, but must unwrap if it wraps them) x recipient pair (v1: also every pool key of another modulus size that the back end accepts as a key-sealing pair); v1 RSA-KEM draw scripted so that the ciphertext has 1-2 leading zero bytes; v1/v3 derived AES-CTR counter block forced (hook) to values whose counter carries past 64 / 128 bits, for wrap and unwrap alike); oracle = wrap ok, own text parses and re-serialises, unwrap returns the same key bytes, decoded length equals the format's fixed length; non-trivial iff non-default parameters, secret key payload, constructed draw, or parsed key",
         assumptions: vec![
             "PBKW parameters are bounded (<= 4 MiB / 3 passes / 10000 iterations) except the few default-cost cases",
             "v1 keys come from a committed pool of RSA-2048/4096 keys",
